@@ -1,7 +1,7 @@
 #!/bin/bash
 # seed_run.sh <Cxx> <n> [check ids…]: apply the confirmed seeded change in its scratch worktree, run the check(s) against it, record.
 P=$1; N=$2; shift 2; CHECKS=${@:-$P}; WT=/tmp/seed-$P; D=/verif/seeded/$P-$N
-cd $WT && git checkout -q -- . && git checkout -q --detach $(git -C /repo rev-parse HEAD) && git apply $D/patch.diff || { echo "PATCH DOES NOT APPLY on current HEAD"; exit 2; }
+cd $WT && git checkout -q -- . && git checkout -q --detach $(git -C /repo rev-parse HEAD) && { git apply $D/patch.diff || git apply --3way $D/patch.diff; } || { echo "PATCH DOES NOT APPLY on current HEAD"; exit 2; }
 cd /verif
 : > $D/check_result.txt
 for c in $CHECKS; do
